@@ -85,7 +85,7 @@ def main():
             dm = e.get('demo')
             fh.write('| %s | %s | %s | %s | %s | %s |\n' % (mid, e['property'], e.get('tests', e.get('error', '')),
                                                             '%s/%s' % (dm['clean_rc'], dm['patched_rc']) if dm else '-', ck,
-                                                            first.replace('|', '\\|')[:160] + (' (expected silent: equivalent change)' if meta.get('expected') == 'silent' else ' (outside the specified zone, see meta.json)' if meta.get('expected') == 'unspecified' else '')))
+                                                            first.replace('|', '\\|')[:160] + (' (expected silent: equivalent change)' if meta.get('expected') == 'silent' else ' (outside the specified zone, see meta.json)' if meta.get('expected') == 'unspecified' else ' (NOT DETECTED - open gap, see meta.json)' if meta.get('expected') == 'missed' else '')))
 
 
 if __name__ == '__main__':
